@@ -38,3 +38,48 @@ def unpack_trace_id(w):
     return {'namespace': w & 0xff, 'type': (w >> 8) & 0xff, 'has_current_aid': (w >> 16) & 1, 'pc_style': (w >> 17) & 7,
             'has_unique_pid': (w >> 20) & 1, 'has_large_offset': (w >> 21) & 1, 'flags': (w >> 24) & 0xff,
             'code': (w >> 32) & 0xffffffff}
+
+
+# ------------------------------------------------------------------ decomposed messages (reference decoding)
+def decode_segment(seg, strings):
+    """a message segment as the format defines it: literal prefix, placeholder (strings through the index, width and
+    precision as they are), argument (scalar details for category 1; object representation of an available argument -
+    availability absent or 3 - through the index for category 2, as the raw value otherwise)"""
+    out = {}
+    if 'lp' in seg:
+        out['literal_prefix'] = strings[seg['lp']]
+    if 'p' in seg:
+        p = seg['p']
+        ph = {}
+        if 'rs' in p:
+            ph['raw_string'] = strings[p['rs']]
+        if p.get('t'):
+            ph['tokens'] = [strings[t] for t in p['t']]
+        if 'tn' in p:
+            ph['type_namespace'] = strings[p['tn']]
+        if 'ty' in p:
+            ph['type'] = strings[p['ty']]
+        ph['width'] = p['w']
+        ph['precision'] = p['p']
+        out['placeholder'] = ph
+    if 'a' in seg:
+        a = seg['a']
+        arg = {}
+        for k, f in (('a', 'availability'), ('p', 'privacy'), ('c', 'category')):
+            if k in a:
+                arg[f] = a[k]
+        if arg.get('category') == 1:
+            for k, f in (('sc', 'scalar_category'), ('st', 'scalar_type')):
+                if k in a:
+                    arg[f] = a[k]
+        if ('availability' not in arg or arg['availability'] == 3) and 'or' in a:
+            arg['object_representation'] = strings[a['or']] if arg.get('category') == 2 else a['or']
+        out['arg'] = arg
+    return out
+
+
+def decode_dm(dm, strings):
+    out = {'placeholder_count': dm['pc'], 'state': dm['s']}
+    if 'seg' in dm:
+        out['segments'] = [decode_segment(s, strings) for s in dm['seg']]
+    return out
